@@ -9,7 +9,7 @@ from harness.props import c03
 RULE = ("every transform-capable class (single, cross, multi, all rotators) x alpha grid x PCA on/off (int / 'all') x rotation power 1..3 x "
         "normalized on/off x preprocessing flags x input structure (DataArray, Dataset, list, 2 sample dims, sample MultiIndex) x NaN rows/"
         "columns; white-noise as well as structured data so that rotations re-sort and flip signs; distinct by the configuration tuple")
-STRUCTS = ["DA", "DA", "DS", "LIST", "2s", "MI", "NaN", "2sNaN", "MINaN"]
+STRUCTS = ["DA", "DA", "DS", "LIST", "2s", "MI", "NaN", "2sNaN", "MINaN", "DSrev"]
 
 
 def cases(seed, tier, broken=()):
@@ -55,7 +55,7 @@ def build(case):
     dim = "time"
 
     def shape(A):
-        if st == "DS":
+        if st in ("DS", "DSrev"):
             return xr.Dataset({"a": A, "b": A * 1.5 - 1.0})
         if st == "LIST":
             return [A, (A * 0.5 + 2.0).isel(lon=slice(0, 2)).rename("w")]
@@ -133,7 +133,12 @@ def run(case):
         kw["normalized"] = True
     try:
         sc = zoo.scores(cls, m, **kw)
-        tf = zoo.transform(cls, m, data, **kw)
+        tdata = data
+        if case["struct"] == "DSrev":
+            # the very same Dataset(s) with the variables listed in another order (a Dataset is a mapping: the same data)
+            rev = lambda d: d[list(reversed(list(d.data_vars)))] if isinstance(d, xr.Dataset) else d  # noqa: E731
+            tdata = tuple(rev(d) for d in data) if isinstance(data, tuple) else rev(data)
+        tf = zoo.transform(cls, m, tdata, **kw)
     except Exception as e:  # noqa: BLE001
         F.append(Finding("oracle", "transform_training_eq_scores", cc + "|raises", f"transform(X_fit) raised {type(e).__name__}: {str(e)[:160]}"))
         return {"findings": F, "info": {}}
